@@ -2,6 +2,7 @@
 //! (explicit-state BFS, visited set keyed by the complete Debug rendering of the real object).
 //! Serves C01 C02 C05 C11.
 
+use vcommon::lit;
 use crate::oracle::*;
 use scale::Encode;
 use scale_info::{IntoPortable, MetaType, PortableRegistry, Registry, TypeDef};
@@ -137,8 +138,8 @@ pub fn apply(env: &Env, reg: &mut Registry, op: &Op) -> OpResult {
         Op::IpFields(i) => {
             if let TypeDef::Composite(c) = m(i).type_info().type_def {
                 let out = reg.map_into_portable(c.fields.clone());
-                let t = scale_info::Type::new(scale_info::Path::default(), vec![], scale_info::TypeDefComposite::new(c.fields), vec![]);
-                let p = scale_info::Type::new(scale_info::Path::default(), vec![], scale_info::TypeDefComposite::new(out), vec![]);
+                let t = lit::ty(lit::path(vec![]), vec![], lit::composite(c.fields), vec![]);
+                let p = lit::ty(lit::path(vec![]), vec![], lit::composite(out), vec![]);
                 if let Err(e) = cmp_type(&t, &p, &mut res.pairs) {
                     res.ip_error = Some(format!("map_into_portable(fields): {e}"));
                 }
@@ -147,8 +148,8 @@ pub fn apply(env: &Env, reg: &mut Registry, op: &Op) -> OpResult {
         Op::IpVariants(i) => {
             if let TypeDef::Variant(v) = m(i).type_info().type_def {
                 let out = reg.map_into_portable(v.variants.clone());
-                let t = scale_info::Type::new(scale_info::Path::default(), vec![], scale_info::TypeDefVariant::new(v.variants), vec![]);
-                let p = scale_info::Type::new(scale_info::Path::default(), vec![], scale_info::TypeDefVariant::new(out), vec![]);
+                let t = lit::ty(lit::path(vec![]), vec![], lit::variants(v.variants), vec![]);
+                let p = lit::ty(lit::path(vec![]), vec![], lit::variants(out), vec![]);
                 if let Err(e) = cmp_type(&t, &p, &mut res.pairs) {
                     res.ip_error = Some(format!("map_into_portable(variants): {e}"));
                 }
@@ -168,8 +169,8 @@ pub fn apply(env: &Env, reg: &mut Registry, op: &Op) -> OpResult {
         Op::IpParams(i) => {
             let t = m(i).type_info();
             let out = reg.map_into_portable(t.type_params.clone());
-            let a = scale_info::Type::new(scale_info::Path::default(), t.type_params, scale_info::TypeDefPrimitive::Bool, vec![]);
-            let p = scale_info::Type::new(scale_info::Path::default(), out, scale_info::TypeDefPrimitive::Bool, vec![]);
+            let a = lit::ty(lit::path(vec![]), t.type_params, lit::primitive(scale_info::TypeDefPrimitive::Bool), vec![]);
+            let p = lit::ty(lit::path(vec![]), out, lit::primitive(scale_info::TypeDefPrimitive::Bool), vec![]);
             if let Err(e) = cmp_type(&a, &p, &mut res.pairs) {
                 res.ip_error = Some(format!("map_into_portable(type_params): {e}"));
             }
